@@ -19,6 +19,8 @@ message::reader writes those fields;
 is discharged by linear entailment from dominating guards, callee summaries (name decoding, Rdata::read) or a masked-
 value argument (header nibbles < 16); Reader::rewind's documented "no mark set" panic is the one justified exception
 (inside the crate every rewind is dominated by a mark);
+(b') the same for Rdata::read and every reader it dispatches to (the C18 census restricted to the read path, re-run
+here), together with the summary Rdata::read = Ok(_) => cursor + rdlength <= len(message) that read_rr relies on;
 (c) atomicity: in every operation that can fail, no error return is reachable after a store to the cursor (the cursor
 moves only after the last fallible step), for Reader::{read_question, skip_question, read_rr, skip_rr} and PeekRr::parse;
 peek_rr does not move the cursor at all;
@@ -208,3 +210,12 @@ def check(R, F):
     check_atomicity(R, F)
     namewire.check_all(R, F, S, 'summary')
     R.floor('summary', 12)
+    # (b') read_rr / PeekRr::parse hand the RDATA to Rdata::read: its totality and its summary are part of "every reader
+    # operation returns without panicking" (seed C15-e: read_soa decoding names from the whole message, then subtracting)
+    from rules import c18
+    reach = sorted(g for g in F.reachable_fns([c18.rt.READ]) if F.fns[g].crate == 'quandary')
+    rfns = [F.fns[g] for g in reach if g not in c18.TRUSTED and not g.startswith('name::wire::') and not g.startswith('name::Name::')]
+    n2 = e5.run_sites(R, F, rfns, 'rdata-totality', exceptions=dict(c18.EXCEPTIONS), S=S)
+    R.floor('rdata-totality', 30, 'panic-capable sites counted in the functions reachable from Rdata::read')
+    R.extra['rdata_read_panic_sites'] = n2
+    c18.check_read_post(R, F, S)
